@@ -96,12 +96,12 @@ def gen_model(rng, n_classes, cross_module):
             fname = ("_" if rng.random() < 0.15 else "") + f"f{i}_{j}"
             fields.append((fname, gen_ann(rng, names, enums), None))
         if role_of is not None:
-            fields.insert(0, ("taker", ("c", role_of), None))
+            fields.insert(0, (f"taker{i}", ("c", role_of), None))      # unique per class: two Role bases must not share a field name
         classes.append(dict(name=n, bases=bases, fields=fields, module=module_of[n], role_of=role_of))
     # every field after the first with a default has a default too (dataclass rule); kw_only sidesteps inheritance ordering
     for c in classes:
         for k, (fname, t, _) in enumerate(c["fields"]):
-            if fname == "taker":
+            if fname.startswith("taker"):
                 continue
             if rng.random() < 0.4:
                 c["fields"][k] = (fname, t, default_src(t))
@@ -372,7 +372,7 @@ def ancestors(by, c):
 def kind_of(by, c, fname):
     """Relation class the key uses: HasRoleTaker for the role-taker field of a Role (also in Role subclasses)."""
     for k in [c] + ancestors(by, c):
-        if by[k]["role_of"] is not None and fname == "taker":
+        if by[k]["role_of"] is not None and fname.startswith("taker"):
             return "HasRoleTaker"
     return "Association"
 
